@@ -118,32 +118,61 @@ def apply_sym(st, op):
     return conc, None
 
 
-def mode_build(req):
+def build_store(xdg, spec):
     from aw_datastore.storages import PeeweeStorage
+    set_xdg(xdg)
+    st = PeeweeStorage(testing=spec["testing"])
+    ops, errs = [], []
+    for op in spec["ops"]:
+        conc, err = apply_sym(st, op)
+        if conc is not None:
+            ops.append(conc)
+            errs.append(err)
+    d = dump_store(st)
+    st.db.close()
+    if spec.get("old_schema"):
+        # a legacy file from before bucketmodel.datastr existed (auto_migrate's reason to be)
+        import sqlite3
+        f = os.path.join(data_dir(xdg), "peewee-sqlite" + ("-testing" if spec["testing"] else "") + ".v2.db")
+        c = sqlite3.connect(f)
+        c.execute("ALTER TABLE bucketmodel DROP COLUMN datastr")
+        c.commit()
+        c.close()
+    return {"testing": spec["testing"], "ops": ops, "errs": errs, "dump": d}
+
+
+def mode_build(req):
+    """Every legacy store is written by a process of its own (a fork of this interpreter taken before any store
+    was opened here): what the oracle takes as the legacy content must not depend on state that earlier stores
+    left behind in the writing process -- that dependence is what the session cases are there to find."""
+    import aw_datastore.storages  # noqa: F401 -- import once, before forking
     out = []
     for case in req:
-        set_xdg(case["xdg"])
         stores = []
         for spec in case["stores"]:
-            st = PeeweeStorage(testing=spec["testing"])
-            ops, errs = [], []
-            for op in spec["ops"]:
-                conc, err = apply_sym(st, op)
-                if conc is not None:
-                    ops.append(conc)
-                    errs.append(err)
-            d = dump_store(st)
-            st.db.close()
-            if spec.get("old_schema"):
-                # a legacy file from before bucketmodel.datastr existed (auto_migrate's reason to be)
-                import sqlite3
-                f = os.path.join(data_dir(case["xdg"]),
-                                 "peewee-sqlite" + ("-testing" if spec["testing"] else "") + ".v2.db")
-                c = sqlite3.connect(f)
-                c.execute("ALTER TABLE bucketmodel DROP COLUMN datastr")
-                c.commit()
-                c.close()
-            stores.append({"testing": spec["testing"], "ops": ops, "errs": errs, "dump": d})
+            r, w = os.pipe()
+            sys.stdout.flush()
+            pid = os.fork()
+            if pid == 0:
+                code = 1
+                try:
+                    os.close(r)
+                    with os.fdopen(w, "w") as f:
+                        json.dump(build_store(case["xdg"], spec), f)
+                    code = 0
+                except BaseException:  # noqa: BLE001
+                    import traceback
+                    traceback.print_exc()
+                finally:
+                    sys.stderr.flush()
+                    os._exit(code)
+            os.close(w)
+            with os.fdopen(r) as f:
+                text = f.read()
+            _, status = os.waitpid(pid, 0)
+            if status != 0:
+                raise RuntimeError(f"building the legacy store {spec['testing']} of {case['xdg']} failed")
+            stores.append(json.loads(text))
         out.append({"stores": stores})
     return out
 
